@@ -518,7 +518,7 @@ func (w *Writer) Facts(f *ssa.Function) (facts []Fact, unknown []ssa.Instruction
 								continue
 							}
 							gp := g.Params[ai]
-							sub := &Writer{IsBase: func(v ssa.Value) bool { return v == ssa.Value(gp) }, Callee: w.Callee, depth: w.depth + 1}
+							sub := &Writer{IsBase: func(v ssa.Value) bool { return v == ssa.Value(gp) }, Describe: w.Describe, Callee: w.Callee, depth: w.depth + 1}
 							hf, hu := sub.Facts(g)
 							if len(hf) == 0 && len(hu) == 0 {
 								continue
@@ -544,7 +544,7 @@ func (w *Writer) Facts(f *ssa.Function) (facts []Fact, unknown []ssa.Instruction
 								if src != nil && src != ft.Src.Val {
 									d = desc(src)
 								}
-								facts = append(facts, Fact{Off: off + ft.Off, Src: Src{Val: src, Desc: d, Lane: lane}, At: in})
+								facts = append(facts, Fact{Off: off + ft.Off, Src: Src{Val: src, Desc: d, Lane: lane}, At: ft.At})
 							}
 						}
 						if handled {
